@@ -212,6 +212,14 @@ def main(argv):
         c, m = sample_cases(rng, fails, formula, mass, envp, exposure, lists, sorted(facs))
         cases += c
         meta += m
+    # fixed inputs of the recorded findings (known_findings.jsonl), so that each is re-examined on every run:
+    # zero and negative activities out of the 2n branch (Te, Lu) and the rest-time lists [1], [2] on them
+    for formula, mass, envp, exposure, lists in (("Te", 1.0, (1e4, 0.0, 0.0), 1.0, [[0, 1, 24, 360], [1], [2]]),
+                                                 ("Lu", 4.9e-3, (1e4, 0.0, 0.0), 0.01, [[0, 1, 24, 360]]),
+                                                 ("NaCl", 1.0, (1e8, 0.0, 0.0), 10.0, [[0, 1, 24, 360], [2], [0.5]])):
+        c, m = sample_cases(rng, fails, formula, mass, envp, exposure, lists, [0.3])
+        cases += c
+        meta += m
     # weakly activated samples with several comparable products and very small targets: there the absolute
     # tolerance of the root finder is coarse and only the 0.1% guard stands between a wrong time and the caller
     for formula in rng.sample(["Ti", "Al2O3", "Cu", "NaCl", "Ag", "AuCu3", "CaCO3", "Ni", "Zn", "Mo"], 4 if n <= 12 else 10):
